@@ -15,6 +15,9 @@ def iterate_axis_combinations(items):
     items_set : frozenset
         Frozen set of axes for initial double checking with metric dimensions
     """
+    # work on the items in the order given: iterating over a set would make the order of the
+    # combinations (and so which of several possible metric products is used) depend on the hash seed
+    items = list(dict.fromkeys(items))
     items_set = frozenset(items)
     yield (items_set,)
     N = len(items)
@@ -22,9 +25,9 @@ def iterate_axis_combinations(items):
         nright = N - nleft
         for sub_loop, sub_items in itertools.product(
             range(min(nright, nleft), 0, -1),
-            itertools.combinations(items_set, nleft),
+            itertools.combinations(items, nleft),
         ):
             these = frozenset(sub_items)
-            those = items_set - these
+            those = [i for i in items if i not in these]
             others = [frozenset(i) for i in itertools.combinations(those, sub_loop)]
             yield (these,) + tuple(others)
